@@ -25,6 +25,13 @@ ColsRange(t, x, z) ==
     LET last == Min(z, Width(t) - 1)
     IN [i \in 1..Max(0, last - x + 1) |-> t.cols[x + i]]
 VMat(m) == [i \in 1..Len(m) |-> VSeq(m[i])]
+(* cell_type = "all" / "float": the cells that carry a value type (every value of the alphabet is a float; 8 is the typed *)
+(* zero written without text); complete = TRUE keeps one entry per cell (none for the others) and completes the line to   *)
+(* the width asked for, complete = FALSE keeps the typed ones only                                                      *)
+Typed(c) == c \in 1..8
+TypedLine(r, complete, width) ==
+    IF complete THEN PadTo([i \in 1..Len(r) |-> IF Typed(r[i]) THEN r[i] ELSE E], width, E)
+    ELSE SelectSeq(r, Typed)
 RECURSIVE Flatten(_)
 Flatten(m) == IF m = <<>> THEN <<>> ELSE Head(m) \o Flatten(Tail(m))
 
@@ -40,6 +47,12 @@ Expected(ev) ==
          [] ev.method = "get_values_flat" -> Flatten(VMat(Area(t, a.x, a.y, a.z, a.t)))
          [] ev.method = "get_cells_flat"  -> Flatten(CellsArea(t, a.x, a.y, a.z, a.t))
          [] ev.method = "get_columns_style" -> SelectSeq(ColsRange(t, a.x, a.z), LAMBDA c : c = a.s)
+         [] ev.method = "get_values_typed" ->
+               LET m == CellsArea(t, a.x, a.y, a.z, a.t)
+               IN [i \in 1..Len(m) |-> TypedLine(m[i], a.complete, Max(0, Min(a.z + 1, Width(t)) - a.x))]
+         [] ev.method = "get_column_values_typed" ->
+               LET col == [y \in 1..Height(t) |-> Value(t, a.x, y - 1)]
+               IN IF a.complete THEN [y \in 1..Height(t) |-> IF Typed(col[y]) THEN col[y] ELSE E] ELSE SelectSeq(col, Typed)
          [] ev.method = "get_row"    -> RowAt(t, a.y)
          [] ev.method = "get_column_values" -> VSeq(ColumnValues(t, a.x))
          [] ev.method = "row_get_values" -> VSeq(RowCellsOf(t, a.y, a.x, a.z))
